@@ -55,7 +55,7 @@ def mutants(kind):
                     continue
                 seen.add(key)
                 out.append({"name": "revert-%s-%s" % (e["id"], e["commit"]), "revert": e["commit"], "props": [e["property"]],
-                            "kind": "revert", "rule": e.get("rule")})
+                            "kind": "revert", "rule": e.get("rule"), "revert_with": e.get("revert_with", [])})
     return out
 
 
@@ -86,6 +86,8 @@ def main():
             if "patch" in m:
                 r = sh(["git", "-C", wt, "apply", "--whitespace=nowarn", m["patch"]])
             else:
+                for extra in m.get("revert_with", []):      # later commits that touched the same lines go first
+                    sh(["git", "-C", wt, "revert", "--no-commit", extra])
                 r = sh(["git", "-C", wt, "revert", "--no-commit", m["revert"]])
             if r.returncode:
                 rec["error"] = "does not apply: " + (r.stderr or r.stdout)[-300:]
